@@ -763,7 +763,10 @@ func (w *walker) defineLocal(lhs ast.Expr, rhs ast.Expr) {
 		}
 		return
 	}
-	// alias of owned data of a guarded field
+	// alias of owned data of a guarded field (directly, or through its address)
+	if u, ok := r.(*ast.UnaryExpr); ok && u.Op == token.AND {
+		r = unparen(u.X)
+	}
 	if b, f, ok := w.rootTarget(r); ok && w.c.ownedData(f) {
 		if bt, isBasic := obj.Type().Underlying().(*types.Basic); isBasic && bt.Kind() != types.Invalid {
 			return // a copied scalar is not an alias
@@ -866,7 +869,18 @@ func (w *walker) stmt(s ast.Stmt) {
 	case *ast.IncDecStmt:
 		w.write(x.X)
 	case *ast.AssignStmt:
-		for _, r := range x.Rhs {
+		for i, r := range x.Rhs {
+			// `p := &X.f[i]` bound to a local: the local becomes an alias of the field (its uses are
+			// reads / writes of the field); taking the address is itself only a read
+			if u, ok := unparen(r).(*ast.UnaryExpr); ok && u.Op == token.AND && len(x.Rhs) == len(x.Lhs) {
+				if id, isId := x.Lhs[i].(*ast.Ident); isId && id.Name != "_" {
+					if b, f, ok := w.rootTarget(u.X); ok && w.c.ownedData(f) {
+						w.access(u, b, f, "R")
+						w.readSubs(u.X)
+						continue
+					}
+				}
+			}
 			w.expr(r)
 		}
 		for i, l := range x.Lhs {
